@@ -404,8 +404,13 @@ class Expander:
             return T("attr", E(node.value), node.attr, src=src)
         if isinstance(node, ast.Call):
             f = E(node.func)
-            args = tuple(T("star", E(a.value)) if isinstance(a, ast.Starred) else E(a) for a in node.args)
-            kws = tuple(((kw.arg or "**"), E(kw.value)) for kw in node.keywords)
+            # when the callee's signature is known, keyword arguments that continue the positional parameters are placed positionally,
+            # so that the term does not depend on how the arguments were spelled
+            from .util import ordered_args, call_params
+            pos_nodes = ordered_args(node) if call_params(node) is not None else list(node.args)
+            placed = {id(x) for x in pos_nodes}
+            args = tuple(T("star", E(a.value)) if isinstance(a, ast.Starred) else E(a) for a in pos_nodes)
+            kws = tuple(((kw.arg or "**"), E(kw.value)) for kw in node.keywords if id(kw.value) not in placed)
             return T("call", f, args, kws, src=src)
         if isinstance(node, ast.BinOp):
             return T("binop", BINOPS.get(type(node.op), "?"), E(node.left), E(node.right), src=src)
